@@ -343,6 +343,34 @@ structure WF (s : SymFile) : Prop where
   bodies : ∀ r ∈ readSyms s.lines, ∀ size, r.size = some size →
     InlOK (inlineesOf r.body) ∧ LinesOK (linesOf r.body) (r.addr + size)
 
+/-! ### well-formedness at one address (what the answer for the address `a` depends on) -/
+
+/-- the line records of one FUNC block are ascending and do not overlap (zero-size records allowed) -/
+def LinesAsc (L : List SourceLine) : Prop := L.Pairwise (fun l1 l2 => l1.address + l1.size ≤ l2.address)
+
+/-- at the address `a`: some line record covers `a`, or no line record starts at or below `a`.
+(The complement — a record starts at or below `a` but none covers it — is exactly the known finding
+C10-line-gap.) -/
+def LineAt (L : List SourceLine) (a : Nat) : Prop :=
+  (∃ l ∈ L, l.address ≤ a ∧ a < l.address + l.size) ∨ (∀ l ∈ L, a < l.address)
+
+/-- at the address `a`: every inline range `c` that covers `a` ends below 2^32, and every other range of
+the same depth lies entirely behind it, or entirely before it and starts earlier. Nothing is demanded of
+ranges that do not cover `a`, nor of pairs of ranges neither of which covers `a`. -/
+structure InlAt (L : List Inlinee) (a : Nat) : Prop where
+  top : ∀ c ∈ L, c.address ≤ a → a < c.address + c.size → c.address + c.size < pow32
+  sep : ∀ c ∈ L, c.address ≤ a → a < c.address + c.size → ∀ e ∈ L, e.depth = c.depth → e ≠ c →
+    c.address + c.size ≤ e.address ∨ (e.address + e.size ≤ c.address ∧ e.address < c.address)
+
+/-- well-formed for the lookup of `a`: `WFIndex`, and — only for a FUNC record whose range contains `a` —
+line records ascending and non-overlapping, `a` covered by one of them or lying before all of them, and the
+inline ranges covering `a` separated from the other ranges of their depth. Gaps between line records,
+overlapping inline ranges, anything at all in other functions: irrelevant unless `a` itself is affected. -/
+structure WFAt (s : SymFile) (a : Nat) : Prop where
+  index : WFIndex s
+  body : ∀ r ∈ readSyms s.lines, ∀ size, r.size = some size → r.addr ≤ a → a < r.addr + size →
+    InlAt (inlineesOf r.body) a ∧ LinesAsc (linesOf r.body) ∧ LineAt (linesOf r.body) a
+
 def readDirectly (s : SymFile) (a : Nat) : Look :=
   let syms := readSyms s.lines
   match bestSym syms a with
